@@ -167,6 +167,10 @@ class Repo:
                 self.modules[modname] = Module(modname, rel, path, src, tree)
         if "gateway_base" not in self.modules:
             raise AnalysisError("src/execnet/gateway_base.py is missing")
+        # NamedTuple records defined in the repo are tuples: normalise constructor calls and typed field reads
+        from .records import desugar_records
+
+        self.records = desugar_records([m.tree for m in self.modules.values()])
 
     def digest(self, modnames: Iterable[str] | None = None) -> str:
         h = hashlib.sha256()
